@@ -425,6 +425,67 @@ Theorem C15_restart_reaches_repair_journal :
 Proof. exact restart_reaches_repair_journal. Qed.
 Print Assumptions C15_restart_reaches_repair_journal.
 
+(* The same with the marker for h-1 >= 1 ANYWHERE in the log (typically in a rolled file, the
+   head holding only records of height h), for logs whose non-zero markers increase: the search
+   skips the torn tail (IgnoreDataCorruptionErrors = true), walks back to the file with the
+   marker, and the decode loop runs through all newer files into the torn record. *)
+Theorem C15_catchup_replay_any :
+  forall (crc : bytes -> bytes) (valid : bytes -> bool) (eh_of : bytes -> option Z),
+  (forall d, length (crc d) = 4%nat) ->
+  forall (s : st) (fs : list (list bytes)) (hr : list bytes) (t : bytes) (tb : bool) (h : Z)
+         (pre : list bytes) (d : bytes) (post : list bytes),
+    SInv crc valid s fs hr t -> tail_ok crc tb t -> Idx s -> 2 <= h ->
+    MonoNZ eh_of (concat fs ++ hr) ->
+    concat fs ++ hr = pre ++ d :: post -> eh_of d = Some (h - 1) ->
+    ~ In h (markers eh_of (concat fs ++ hr)) ->
+    exists s1 fs1,
+      catchup crc valid eh_of true s h = ((if tb then CCorrupt else COk post), s1) /\
+      SInv crc valid s1 fs1 hr t /\ concat fs1 = concat fs /\ same_mem s s1 /\ Idx s1.
+Proof. exact catchup_replay_any. Qed.
+Print Assumptions C15_catchup_replay_any.
+
+(* [hr <> []]: the head holds at least one whole record (OnStart writes #ENDHEIGHT 0 into an
+   empty head before anything else is written).  [MonoNZ] includes the record r that was being
+   written. *)
+Theorem C15_restart_reaches_repair_any :
+  forall (crc : bytes -> bytes) (valid : bytes -> bool) (eh_of : bytes -> option Z),
+  (forall d, length (crc d) = 4%nat) -> valid [] = false ->
+  forall (s : st) (keep h : Z) (d0a d0b : bytes) (fs : list (list bytes)) (hr : list bytes)
+         (r : bytes) (k : nat) (pre : list bytes) (d : bytes) (post : list bytes),
+    files s = map (frames crc) fs -> Forall (okrec valid) (concat fs ++ hr) ->
+    okrec valid r -> (0 < k < length (frame crc r))%nat ->
+    head (crash s keep) = frames crc hr ++ firstn k (frame crc r) ->
+    hr <> [] -> MonoNZ eh_of (concat fs ++ hr ++ [r]) ->
+    2 <= h -> concat fs ++ hr = pre ++ d :: post -> eh_of d = Some (h - 1) ->
+    ~ In h (markers eh_of (concat fs ++ hr)) -> eh_of r <> Some h ->
+    (exists x s', (x = [] \/ x = [r]) /\
+       restart crc valid eh_of true s keep h true d0a d0b = (s', (0%N, true, post ++ x)) /\
+       head s' = frames crc (hr ++ x) /\ buf s' = [] /\ synced s' = len (head s') /\
+       junk s' = len (frames crc hr ++ firstn k (frame crc r)) /\
+       read_all crc valid true s' = (concat fs ++ hr ++ x, TEof))
+    \/ CrcCollision crc.
+Proof. exact restart_reaches_repair_any. Qed.
+Print Assumptions C15_restart_reaches_repair_any.
+
+Theorem C15_restart_reaches_repair_journal_any :
+  forall (crc : bytes -> bytes) (valid : bytes -> bool) (eh_of : bytes -> option Z),
+  (forall d, length (crc d) = 4%nat) -> valid [] = false ->
+  forall (s : st) (fs : list (list bytes)) (hs hu pre' : list bytes) (r : bytes)
+         (post' : list bytes) (j : nat) (h : Z) (d0a d0b : bytes)
+         (p : list bytes) (d : bytes) (post : list bytes),
+    Inv crc valid s fs hs hu -> hu = pre' ++ r :: post' -> (0 < j < length (frame crc r))%nat ->
+    hs ++ pre' <> [] -> MonoNZ eh_of (concat fs ++ hs ++ pre' ++ [r]) ->
+    2 <= h -> concat fs ++ hs ++ pre' = p ++ d :: post -> eh_of d = Some (h - 1) ->
+    ~ In h (markers eh_of (concat fs ++ hs ++ pre')) -> eh_of r <> Some h ->
+    (exists x s', (x = [] \/ x = [r]) /\
+       restart crc valid eh_of true s (len (frames crc pre') + Z.of_nat j) h true d0a d0b =
+         (s', (0%N, true, post ++ x)) /\
+       head s' = frames crc (hs ++ pre' ++ x) /\ buf s' = [] /\ synced s' = len (head s') /\
+       read_all crc valid true s' = (concat fs ++ hs ++ pre' ++ x, TEof))
+    \/ CrcCollision crc.
+Proof. exact restart_reaches_repair_journal_any. Qed.
+Print Assumptions C15_restart_reaches_repair_journal_any.
+
 (* ---- non-vacuity on concrete data (real CRC-32C; a record that starts with byte 99 is the
    #ENDHEIGHT marker of its second byte) ---- *)
 Definition ex_eh (d : bytes) : option Z :=
@@ -502,3 +563,15 @@ Example C15_search_after_repair_nonvacuous :
   fst (search crc32c_be vtrue ex_eh true (crash_repair crc32c_be vtrue s 24) 1 false) =
     Found (frames crc32c_be [ex_r1; ex_r2]).
 Proof. vm_compute. reflexivity. Qed.
+
+(* the marker for h-1 in the rolled file, the head holds a record of height 2 and 5 bytes of
+   the next one: the replay gets the records of both files behind the marker *)
+Example C15_restart_reaches_repair_any_nonvacuous :
+  let s := fold_left (dstep crc32c_be vtrue)
+             [DWriteSync (ex_mk 0); DWriteSync (ex_mk 1); DWriteSync ex_r2; DRotate;
+              DWriteSync ex_r1; DWrite ex_r2] (init 0 0) in
+  head (crash s 5) = frames crc32c_be [ex_r1] ++ firstn 5 (frame crc32c_be ex_r2) /\
+  snd (restart crc32c_be vtrue ex_eh true s 5 2 true (ex_mk 0) (ex_mk 0)) = (0%N, true, [ex_r2; ex_r1]) /\
+  head (fst (restart crc32c_be vtrue ex_eh true s 5 2 true (ex_mk 0) (ex_mk 0))) =
+    frames crc32c_be [ex_r1].
+Proof. vm_compute. repeat split; reflexivity. Qed.
